@@ -55,7 +55,10 @@ claim(
     "object read, consults is_up_to_date* iff auto_reload, and gives a hit exactly the current "
     "request's globals; (4) a namespaced key contains both namespace and name, keyword before "
     "context; (5) every Caching* class takes load* from the mixin; (6) every uptodate kind a wrapped "
-    "loader stores is consumable by both the sync and the async freshness check (interleaving). "
+    "loader stores is consumable by both the sync and the async freshness check (interleaving); "
+    "(7) every freshness callable handed out with a template source answers by EQUALITY of the "
+    "recorded and the current modification time (an ordering test misses a source replaced by an "
+    "older file). "
     "Each is a necessary condition of 'same name, source and behaviour as the non-caching loader, "
     "namespaces never substituted, changed source picked up, request globals apply'.",
     "Not decided: LRU order/eviction interplay and reload timing over histories (value level). "
@@ -122,7 +125,9 @@ claim(
     "TBL+FLOW+OWN",
     "static: scope-chain order tables, push/pop pairing, who-may rules for binding constructs",
     "Clauses: the three scope-chain constructions list their maps in the documented precedence "
-    "order; ReadOnlyChainMap prepends on push, pops the front and scans front to back; the one "
+    "order and RenderContext keeps the globals mapping it is given BY REFERENCE whenever one is "
+    "given (the render tag fills the still empty, hence falsy, chain map after copying the "
+    "context: `globals or {}` would drop its innermost bindings); ReadOnlyChainMap prepends on push, pops the front and scans front to back; the one "
     "scope push and the one loop-stack push are each followed by a try/finally that pops exactly "
     "once and nothing else pushes or pops; extend/loop are context managers used only as with "
     "items; for/tablerow/with/include/partials render their bodies inside extend/loop while "
@@ -160,7 +165,10 @@ claim(
     "Full structural decision for the enumerated channels: lru_cache/cache only on the three "
     "configuration factories; no registered filter (80), evaluate*/render_to_output* method or "
     "context lookup mutates a value aliased to a parameter or an evaluation result (in-place "
-    "methods, item/attribute stores, del, augmented assignment on the input sequence); no method "
+    "methods, item/attribute stores, del, augmented assignment on the input sequence) unless a "
+    "must-dataflow shows that, if it is a list at all, it is a list this call chain built itself "
+    "(helpers assumed to build new lists, `flatten`, are verified; what each decorator wrapper "
+    "hands to the filter is analysed; a conditional copy does not count); no method "
     "of the ~100 parse-tree classes stores to self outside __init__ and render-time code stores "
     "attributes only on caught exceptions and per-render objects; no module- or class-level "
     "container is mutated from a function; every render builds a new context from a copy of its "
@@ -234,7 +242,9 @@ claim(
     "inner tags its parser accepts (folded from the end-sets passed to parse_block and its "
     "is_tag/value tests, plus break/continue where the node handles the interrupts) equal "
     "DEFAULT_INNER_TAG_MAP[name]; each declares end == 'end'+name and parses to exactly that tag; "
-    "block is declared iff the parser consumes a block.",
+    "block is declared iff the parser consumes a block; no memoised function reads a `.tags` "
+    "register and _audit_tags reads env.tags through un-memoised code (the audit judges against "
+    "the register the parser consults now, not a snapshot).",
     "The audit's own bookkeeping over arbitrary interleavings of block/end tags beyond these "
     "table agreements is not decided. Token lists are those the lexer produces.",
     "DESIGN.md section 5 C21",
@@ -259,16 +269,22 @@ claim(
 
 claim(
     "C16",
-    "TBL",
-    "static: table agreement between Undefined's implicit-protocol methods and the strict subclasses' overrides",
+    "TBL+KINDS",
+    "static: table agreement between Undefined's implicit-protocol methods and the strict subclasses' overrides; context-sensitive kind inference (the exception-escape engine's flow) for raw equality with possibly-undefined values",
     "Clause (second sentence of the property): each of Undefined's protocol methods (contains, eq, "
     "getitem, len, iter, str, int, hash, reversed) and __bool__ is overridden in StrictUndefined by "
     "a body that only raises UndefinedError; __getattribute__ raises for every name outside "
     "allowed_properties, which contains no protocol method; Undefined itself never raises and "
     "returns the empty values; FalsyStrictUndefined relaxes exactly __bool__/__eq__; "
     "StrictDefaultUndefined only adds force_liquid_default; the context builds missing values only "
-    "through env.undefined(...).",
-    "Not decided: the first sentence (a strict render that succeeds equals the default render).",
+    "through env.undefined(...). First sentence, the part whose truth is in the shape of the code: "
+    "__eq__ is the only relaxed method on which Undefined and FalsyStrictUndefined answer "
+    "differently (None vs False), so no raw ==/!=/in/.index/.count reachable from render may put "
+    "a possibly-undefined data value next to a possibly nil/bool/undefined one unless "
+    "is_undefined excludes it on that path or both operands were unwrapped through __liquid__() "
+    "(C16-RAWEQ); handlers that would swallow UndefinedError are listed (C16-SWALLOW).",
+    "Not decided: the rest of the first sentence (equal output of a strict render that succeeds) — "
+    "value level. Kind inference treats values of unknown kind as not armed.",
     "DESIGN.md section 5 C16",
 )
 
@@ -281,7 +297,8 @@ claim(
     "reached through child nodes it yields), every rendered child/block by children(), and every "
     "name the node claims to bind (block_scope/template_scope/partial_scope) is really bound by "
     "its render method; for each expression class every evaluated sub-expression is returned by "
-    "children(); every filters slot is read by _extract_filters; the analyser's visit collects "
+    "children() — under no condition other than on that field itself (path conditions; a loop "
+    "over several fields must not break or return) —; every filters slot is read by _extract_filters; the analyser's visit collects "
     "tags, expressions, scopes and children of every node. 2 open findings (implicit "
     "`translations` read; inline-snippet name) are listed in known_findings.jsonl.",
     "Not decided: the analyser's scope bookkeeping and partial de-duplication over visit "
@@ -297,7 +314,8 @@ claim(
     "Clauses: at each of the 13 Token constructions of the template lexer, expression tokenizer "
     "and liquid-tag tokenizer the offset is taken from the same regex group as the value (whole "
     "match for match.group()), with the parent token's start_index added exactly when the source "
-    "is the parent's source; every Span in static analysis and tag analysis is located at the "
+    "is the parent's source; the text handed to finditer is the tokenizer's own parameter and is "
+    "never rebound (offsets are relative to the text the caller holds); every Span in static analysis and tag analysis is located at the "
     "token of the very item whose name keys the report and names the template being visited; "
     "error formatting indexes the token's own source only after the start_index < 0 guard, and "
     "every parse-time LiquidError raise passes token=.",
@@ -317,13 +335,16 @@ claim(
     "closes with its end tag; every keyword a serialiser writes is one the matching parser tests "
     "for (reader/writer agreement, ~70 serialisers); strings and quoted path segments are written "
     "verbatim without Python escapes, floats positionally, cycle groups through their expression, "
-    "the path root through the same branches as other segments; the logical-expression "
+    "the path root through the same branches as other segments; a string path segment is written "
+    "in dot notation only under a WHOLE-segment test against a pattern whose every match is one "
+    "WORD token of the expression tokenizer (exact character-class inclusion over all code "
+    "points, sa/rx.py) and that is not a tokenizer keyword; the logical-expression "
     "serialiser brackets with the parser's binding powers (and/or equal, right grouping, not as "
     "operand, comparisons included). 3 open findings (nil/empty/blank print '') are listed.",
     "Not decided: equality of the re-parsed tree / identical rendering for every template. The "
-    "C04-PREC rule is anchored on the current structure of BooleanExpression.__str__; an "
-    "equivalent rewrite is reported for review. Extra (non-standard) tags without __str__ are "
-    "outside the property.",
+    "C04-PREC rule reads the bracket test of BooleanExpression.__str__ disjunct by disjunct in "
+    "canonical form; a differently factored but equivalent rule is reported for review. Extra "
+    "(non-standard) tags without __str__ are outside the property.",
     "DESIGN.md section 5 C04",
 )
 
@@ -335,13 +356,14 @@ claim(
     "every path in raise StopRender, which render_with_context* turns into break (nothing after "
     "extends renders except through blocks); each parent name is tested against and added to a "
     "fresh `seen` set before it is loaded, with TemplateInheritanceError on repeat, and the walk "
-    "moves strictly upwards; too-many-extends and duplicate-block raises precede _store_blocks; "
+    "moves strictly upwards; on EVERY path that reaches _store_blocks or a return of "
+    "_stack_blocks (a base template included) more than one extends tag and duplicate block names "
+    "have been rejected (must-dataflow); "
     "BlockTag.parse rejects a mismatched endblock name; stacks are per block name, leaf first, "
     "linked parentwards; a block renders block_stack[0] with parent = that item's parent and "
     "block.super renders exactly one step up; RequiredBlockError is raised on the direct and the "
     "stacked path before rendering and `required` is cleared only under a more derived override.",
-    "Not decided: the output of particular chains (value level). Sync/async parity: C01. Rules "
-    "are anchored on the current structure of extends_tag.py.",
+    "Not decided: the output of particular chains (value level). Sync/async parity: C01.",
     "DESIGN.md section 5 C18",
 )
 
@@ -415,7 +437,11 @@ claim(
     "configuration); no lexing/tokenising function contains a hard-coded delimiter outside "
     "parameter defaults; Environment defines no __eq__ and hashes delimiters+mode, Parser keeps "
     "only env, every attribute a Tag stores derives from its env, parsing uses get_parser(self), "
-    "self.tokenizer() and a fresh TokenStream.",
+    "self.tokenizer() and a fresh TokenStream; the liquid tag's line-comment marker (derived from "
+    "comment_start_string) reaches its line pattern through re.escape, is tried before any "
+    "alternative that can start with a word character, is closed by a word boundary for markers "
+    "ending in a word character, and a line is skipped exactly when the captured name equals the "
+    "unescaped marker (C11-MARKER, decided on the parsed regex).",
     "Not decided: output equality under delimiter rewriting as such. Reviewed row: the liquid "
     "tag derives its line-comment marker from comment_start_string (documented). Shared mutable "
     "module state is decided under C17-MODULE.",
@@ -450,7 +476,11 @@ claim(
     "tested by truthiness or defaulted with `or` (other than `or 0`); the reported length is "
     "max(stop-start, 0), offset:continue uses the stop index stored under identifier-iterable, "
     "reversed applies to the sliced items, for renders else iff the sliced length is 0; forloop "
-    "and tablerowloop helpers are the documented formulas of the running index.",
+    "and tablerowloop helpers are the documented formulas of the running index, and they are "
+    "constructed from what they describe (C13-BIND): `it` / `length` receive the (iterator, "
+    "length) pair returned by the loop expression, `ncols` the cols value (or the length when "
+    "there is none), by parameter name, in both twins, and each constructor stores them under "
+    "the attribute the formulas read.",
     "Not decided: which items a particular collection/limit/offset combination yields, helper "
     "values along a run, tablerow HTML geometry for every cols value (value level).",
     "DESIGN.md section 5 C13",
@@ -489,12 +519,15 @@ claim(
     "Filter.evaluate* (shape checked). A new unguarded int()/float()/Decimal()/math.*/division/"
     "subscript/decode/encode/fromtimestamp/strftime/islice/next/assert/%-format/raise of a "
     "builtin exception on data-kinded values anywhere reachable from render is reported with its "
-    "witness chain; a narrowed or removed handler re-exposes the sites it covered.",
+    "witness chain; a narrowed or removed handler re-exposes the sites it covered. RecursionError "
+    "at render time (nothing converts it there) is decided through the render-side depth rules "
+    "shared with C09 (C02-RECURSION): both ContextDepthError guards, copy_depth + 1 on every "
+    "context copy builds, every run-time-found block rendered under a guard, and the frame budget "
+    "(the last is a listed open finding).",
     "Trusted: the primitive table (CPython/stdlib documented behaviour; dateutil, babel and pytz "
     "rows are trusted) and the kind transfer table in sa/kinds.py; name-based method resolution "
     "(over-approximate) with arity filtering; the reviewed rows in sa/props/c02.py. Out of scope: "
     "user drops/custom filters, AttributeError/TypeError on values of unknown kind, "
-    "str() of over-long ints outside the two repaired funnels (A-INTSTR), MemoryError/"
-    "RecursionError (C09), third-party internals beyond the trusted rows.",
+    "MemoryError, third-party internals beyond the trusted rows.",
     "DESIGN.md section 4 (EXC), section 5 C02, Appendix A",
 )
